@@ -24,7 +24,8 @@
 EXTENDS Integers, Sequences, FiniteSets, TLC
 
 CONSTANTS MaxRole,   \* longest role string
-          MaxVal     \* longest other tag value / message string
+          MaxVal,    \* longest other tag value
+          MaxStr     \* longest user event / query / reply string
 
 MAGIC == 0
 Limit == 512
@@ -64,9 +65,9 @@ TagIn   == { Rec("tags", pv, pvb, via, t, 0, <<>>, <<>>, <<>>, 0) :
                pv \in Versions, pvb \in {2, 5}, via \in {"create", "settags"}, t \in TagMaps }
 SizeIn  == { Rec("size", pv, 5, via, NoTags, L, <<>>, <<>>, <<>>, 0) :
                pv \in Versions, via \in {"create", "settags"}, L \in {8, 300, 510, 511, 512, 513, 514, 600} }
-EventIn == { Rec("event", pv, 5, "-", NoTags, 0, n, p, <<>>, c) : pv \in {2, 5}, n \in Strs(MaxVal), p \in Strs(MaxVal), c \in 0..1 }
-QueryIn == { Rec("query", 5, 5, "-", NoTags, 0, n, p, r, 0) : n \in Strs(1), p \in Strs(MaxVal), r \in Strs(MaxVal) }
-RelayIn == { Rec("relay", 5, 5, "-", NoTags, 0, p, d, <<>>, 0) : p \in Strs(MaxVal), d \in Strs(1) }
+EventIn == { Rec("event", pv, 5, "-", NoTags, 0, n, p, <<>>, c) : pv \in {2, 5}, n \in Strs(MaxStr), p \in Strs(MaxStr), c \in 0..1 }
+QueryIn == { Rec("query", 5, 5, "-", NoTags, 0, n, p, r, 0) : n \in Strs(1), p \in Strs(MaxStr), r \in Strs(MaxStr) }
+RelayIn == { Rec("relay", 5, 5, "-", NoTags, 0, p, d, <<>>, 0) : p \in Strs(MaxStr), d \in Strs(1) }
 Inputs == TagIn \cup SizeIn \cup EventIn \cup QueryIn \cup RelayIn
 
 ------------------------------------------------------------------------------
